@@ -189,6 +189,7 @@ def sig_of(f):
             'has_disconnect': 'disconnect' in ops, 'has_degq': 'degq' in ops,
             'connect_split': any(o in ('connect', 'try_connect') for o in split_ops),
             'split': '+'.join(split_ops),
+            'disconnect_split': 'disconnect' in split_ops, 'isolate_split': 'isolate' in split_ops,
             # does a (try_)connect of the scripts join two nodes that an initial edge already joins (either direction)?
             'connect_on_old_pair': any(st[0] in ('connect', 'try_connect') and frozenset((st[1], st[2])) in
                                        {frozenset((p[1], p[2])) for p in scen['steps'] if p[0] == 'connect'}
